@@ -310,6 +310,7 @@ class AccessoryConn(asyncio.Protocol):
         self.requests: list[dict] = []  # every request received (plain + secure), in order
         self.raw_in = b""
         self.subscriptions: set[tuple[int, int]] = set()
+        self.asked: set[tuple[int, int]] = set()  # every id this connection was ASKED to send events for (existing or not)
         self.subscribe_log: list[tuple] = []
         self.frames_sent = 0
         self.decode_errors: list[str] = []
@@ -473,6 +474,8 @@ class AccessoryConn(asyncio.Protocol):
             key = (item["aid"], item["iid"])
             known = self.accessory.find_char(*key) is not None
             statuses.append({"aid": key[0], "iid": key[1], "status": 0 if known else -70409})
+            if "ev" in item:
+                (self.asked.add if item["ev"] else self.asked.discard)(key)
             if "ev" in item and not known:
                 # asked for, but the accessory has no such characteristic: answered per item in a 207 multi-status reply
                 self.subscribe_log.append((asyncio.get_running_loop().time(), key, item["ev"], req["n"]))
